@@ -21,39 +21,36 @@ MU = "alpha::analyzer::mutability::"
 FC = "alpha::analyzer::function_calls::"
 
 
-def second_arg_summary(call):
-    return hirq.summarize_bool(call["a"][1]) if len(call.get("a", [])) > 1 else None
+def second_arg_summary(call, env=None):
+    return hirq.summarize_bool(call["a"][1], env) if len(call.get("a", [])) > 1 else None
+
+
+POISONED = "(false || {self.value_type.is_err()})"    # canonical (hirq.full_env): immutable unless the declared type is poisoned
 
 
 def r1_bits(run, F):
     spec = {
-        "<alpha::common::Parameter as alpha::analyzer::mutability::Analyzable>::analyze": "(false || is_error)",
+        "<alpha::common::Parameter as alpha::analyzer::mutability::Analyzable>::analyze": POISONED,
         "<alpha::common::Member as alpha::analyzer::mutability::Analyzable>::analyze": "true",
     }
     for fn, want in spec.items():
         b = F.body(fn)
         cs = [c for c in hirq.calls(b["hir"]) if hirq.callee(c) == MU + "Analyzer::declare_variable"]
-        got = [second_arg_summary(c) for c in cs]
+        got = [second_arg_summary(c, hirq.full_env(b)) for c in cs]
         run.ob("R1-MUTABILITY-BITS", fn.split(" as ")[0].split("::")[-1], got == [want], F.where(b),
                "declare_variable(.., %s) expected, found %s" % (want, got))
     d = F.body("<alpha::common::Declaration as alpha::analyzer::mutability::Analyzable>::analyze")
     m = [x for x in hirq.matches(d["hir"]) if hirq.n_alts(x) >= 5][0]
     carm = hirq.arm_for(m, "Declaration::Constant")
-    cs = [second_arg_summary(c) for c in hirq.calls(carm[0]["body"]) if hirq.callee(c) == MU + "Analyzer::declare_variable"] if carm else []
-    run.ob("R1-MUTABILITY-BITS", "Constant", cs == ["(false || is_error)"], F.where(d), "constants are immutable: %s" % cs)
-    # is_error derives from value_type.is_err()
-    for fn in (list(spec)[0],):
-        b = F.body(fn)
-        ok = False
-        for n in walk(b["hir"]):
-            if n.get("k") == "Let" and n["pat"].get("name") == "is_error":
-                ok = hirq.summarize_bool(n["init"]).endswith(".is_err()")
-        run.ob("R1-MUTABILITY-BITS", "is_error = value_type.is_err()", ok, F.where(b), "mutability is only faked for poisoned types")
+    denv = hirq.full_env(d)
+    cs = [second_arg_summary(c, denv) for c in hirq.calls(carm[0]["body"]) if hirq.callee(c) == MU + "Analyzer::declare_variable"] if carm else []
+    run.ob("R1-MUTABILITY-BITS", "Constant", cs == [POISONED], F.where(d), "constants are immutable (mutability is only faked for poisoned types): %s" % cs)
     st = F.body("<alpha::common::Statement as alpha::analyzer::mutability::Analyzable>::analyze")
     sm = [x for x in hirq.matches(st["hir"]) if hirq.n_alts(x) >= 8][0]
     darm = hirq.arm_for(sm, "Statement::Declaration")
     run.require(darm, "Statement::Declaration arm not found")
-    tm = [x for x in hirq.matches(darm[0]["body"]) if hirq.local_name_of(x["scrut"]) == "value_type"]
+    senv = hirq.full_env(st)
+    tm = [x for x in hirq.matches(darm[0]["body"]) if hirq.canon_of(x["scrut"], senv) == "self.value_type"]
     rows = []
     if tm:
         for k, g, o in hirq.nested_table(tm[0]):
@@ -70,7 +67,15 @@ def r1_bits(run, F):
     run.ob("R1-MUTABILITY-BITS", "Statement::Declaration table", got == ref, F.where(st, darm[0]),
            "local variables are mutable unless they are slices, slice pointers or views: %s" % got, sample=got)
     cs = [c for c in hirq.calls(darm[0]["body"]) if hirq.callee(c) == MU + "Analyzer::declare_variable"]
-    run.ob("R1-MUTABILITY-BITS", "Statement::Declaration uses the table", len(cs) == 1 and second_arg_summary(cs[0]) == "is_mutable", F.where(st), "declare_variable(&name, is_mutable)")
+    # ... and the bit handed to declare_variable is the value of that match (directly or through a local)
+    from rules import origins as _or
+    uses = False
+    if len(cs) == 1 and tm:
+        a1 = hirq.unwrap_trivial(cs[0]["a"][1])
+        defs = _or.definitions(st["hir"], st.get("params", ()))
+        srcs = [a1] + [src for src, _ in defs.get(a1.get("lid"), []) if src is not None] if a1.get("k") == "Path" else [a1]
+        uses = any(hirq.unwrap_trivial(x) is tm[0] for x in srcs)
+    run.ob("R1-MUTABILITY-BITS", "Statement::Declaration uses the table", uses, F.where(st), "declare_variable(&name, <value of the table>)")
 
 
 def r2_outer(run, F):
@@ -130,15 +135,14 @@ def r3_checked_mutation(run, F):
     run.require(darm, "Deref arm not found")
     ok = False
     isadd = None
-    for n in walk(darm[0]["body"]):
-        if n.get("k") == "Let" and n["pat"].get("name") == "is_addressed":
-            isadd = hirq.summarize_bool(n["init"])
+    eenv = hirq.full_env(e)
     inner = [x for x in hirq.matches(darm[0]["body"]) if hirq.callee(hirq.unwrap_trivial(x["scrut"])) == MU + "Analyzer::use_variable"]
     if len(inner) == 1:
         call = hirq.unwrap_trivial(inner[0]["scrut"])
         rows = ok_err_rows(inner[0])
-        ok = hirq.local_name_of(hirq.unwrap_trivial(call["a"][1])) == "is_addressed" and rows.get("Ok") == ["Expression::Deref"] and rows.get("Err") == ["Expression::Poison"]
-    ok = ok and isadd == "((reference.address_depth > 0) && needs_outer_mutability(..))"
+        isadd = hirq.summarize_bool(call["a"][1], eenv)
+        ok = rows.get("Ok") == ["Expression::Deref"] and rows.get("Err") == ["Expression::Poison"]
+    ok = ok and isadd == "{((self.reference.address_depth > 0) && needs_outer_mutability(..))}"
     run.ob("R3-ADDRESS-CHECKED", "Expression::Deref", ok, F.where(e, darm[0]),
            "taking the address of a variable (&x) requires it to be mutable unless reached through a pointer: is_addressed = %s" % isadd)
     # the variable whose mutability bit is consulted is the BASE of the reference (members are declared mutable one and all:
@@ -157,7 +161,23 @@ def r3_checked_mutation(run, F):
                "use_variable must be asked about the base of the reference (%s); asking about a member step loses E530 for "
                "`param.member = ..` and `CONST.member = ..`" % det)
     uv = F.body(MU + "Analyzer::use_variable")
-    ifs = [n for n in walk(uv["hir"]) if n.get("k") == "If" and "else" in n and hirq.summarize_bool(n["cond"]) == "(is_mutated && !is_mutable)"]
+    # `<the is-mutated parameter> && !<the bit stored for the variable>`: operands by role (bool parameter; negated local that
+    # derives from the `variables` table), either operand order
+    from rules import origins as _or
+    bool_params = [q.get("lid") for q in uv.get("params", []) if str(F.lib.ty(q.get("t"))) == "bool"]
+
+    def mutated_and_immutable(cond):
+        c = hirq.unwrap_trivial(cond)
+        if c.get("k") != "Binary" or c.get("op") != "And":
+            return False
+        sides = [hirq.unwrap_trivial(c["lhs"]), hirq.unwrap_trivial(c["rhs"])]
+        par = [x for x in sides if x.get("k") == "Path" and x.get("lid") in bool_params]
+        neg = [x for x in sides if x.get("k") == "Unary" and x.get("op") == "Not"]
+        if len(par) != 1 or len(neg) != 1:
+            return False
+        o = _or.origins(uv["hir"], neg[0]["e"], uv.get("params", ()))
+        return ("field", "variables") in o
+    ifs = [n for n in walk(uv["hir"]) if n.get("k") == "If" and "else" in n and mutated_and_immutable(n["cond"])]
     ok = False
     if len(ifs) == 1:
         tc = [hirq.short(p) for p, _ in hirq.constructs(ifs[0]["then"])]
@@ -177,8 +197,9 @@ def r4_copies(run, F):
     em = [x for x in hirq.matches(e["hir"]) if hirq.n_alts(x) > 12][0]
     darm = hirq.arm_for(em, "Expression::Deref")
     run.require(darm, "Deref arm not found in function_calls")
-    tm = [x for x in hirq.matches(darm[0]["body"]) if hirq.local_name_of(x["scrut"]) == "deref_type"]
-    run.require(tm, "match deref_type not found")
+    fenv = hirq.full_env(e)
+    tm = [x for x in hirq.matches(darm[0]["body"]) if hirq.canon_of(x["scrut"], fenv) == "self.deref_type"]
+    run.require(tm, "the match over the Deref's type was not found")
     got = {}
     for a in tm[0]["arms"]:
         vts = sorted(set(hirq.pat_key(x).split("::")[-1] for x in walk(a["pat"]) if x.get("k") in ("Struct",) and "ValueType::" in hirq.pat_key(x)))
@@ -188,10 +209,10 @@ def r4_copies(run, F):
         ok = False
         err = None
         if len(ifs) == 1:
-            cond = hirq.summarize_bool(ifs[0]["cond"])
+            cond = hirq.summarize_bool(ifs[0]["cond"], fenv)
             tc = [hirq.short(p) for p, _ in hirq.constructs(ifs[0]["then"]) if hirq.short(p).startswith("Error::")]
             ec = [hirq.short(p) for p, _ in hirq.constructs(ifs[0]["else"]) if hirq.short(p).startswith("Error::")]
-            ok = cond == "!analyzer.is_immediate_function_argument" and len(tc) == 1 and not ec
+            ok = cond == "!$1.is_immediate_function_argument" and len(tc) == 1 and not ec
             err = tc[0] if tc else None
         got[",".join(vts)] = (err, ok)
     ref = {"Array,EndlessArray": ("Error::CannotCopyArray", True), "Arraylike,Slice,SlicePointer": ("Error::CannotCopySlice", True),
